@@ -91,7 +91,7 @@ def main():
         ],
         "checks": checks,
         "not_applicable": na,
-        "notes": "All checks are static (no execution of dvc_data). exit 0 = all obligations discharged; exit 1 + VIOLATION line = a structural clause fails at a named construct; exit 2 + ANALYSIS-ERROR = the analysis could not run (vanished anchor). Thirteen genuine defects were repaired by fix: commits in /repo (see known_findings.json 'fixed').",
+        "notes": "All checks are static (no execution of dvc_data). exit 0 = all obligations discharged; exit 1 + VIOLATION line = a structural clause fails at a named construct; exit 2 + ANALYSIS-ERROR = the analysis could not run (vanished anchor). Fifteen genuine defects were repaired by fix: commits in /repo (see known_findings.json 'fixed').",
     }
     with open(os.path.join(VERIF, "MANIFEST.json"), "w", encoding="utf-8") as f:
         json.dump(manifest, f, indent=1)
